@@ -204,6 +204,64 @@ fn do_drop(log: &ULog, table: &Table, op: &Value) {
             let v = metrique::instrument::Instrumented::from_parts(7u8, owner).emit();
             assert_eq!(v, 7);
         }
+        // the other ways an `Instrumented` lets go of the owner it carries
+        Obj::Owner(owner) if js(op, "via", "").starts_with("instr_") => {
+            use metrique::instrument::Instrumented;
+            match js(op, "via", "") {
+                "instr_sync" => {
+                    let i = Instrumented::instrument(owner, |m| {
+                        detsim::yield_point();
+                        let _ = &m;
+                        7u8
+                    });
+                    assert_eq!(i.discard_metrics(), 7);
+                }
+                "instr_split" => {
+                    let mut parked = None;
+                    let v = Instrumented::from_parts(7u8, owner).split_metrics_to(&mut parked);
+                    assert_eq!(v, 7);
+                    detsim::yield_point();
+                    drop(parked);
+                }
+                how => {
+                    // instrument_async: the user's future completes, is cancelled while suspended (a timeout, a
+                    // select!), or panics - in every case the owner goes away with it
+                    let fut = Instrumented::instrument_async(owner, async move |m: &mut Owner| {
+                        let _ = &m;
+                        let mut first = true;
+                        std::future::poll_fn(|cx| {
+                            if first {
+                                first = false;
+                                cx.waker().wake_by_ref();
+                                std::task::Poll::Pending
+                            } else {
+                                std::task::Poll::Ready(())
+                            }
+                        })
+                        .await;
+                        if how == "instr_async_panic" {
+                            std::panic::panic_any("harness: the instrumented future panics");
+                        }
+                        7u8
+                    });
+                    let mut fut = std::pin::pin!(fut);
+                    match how {
+                        "instr_async_cancel" => {
+                            let _ = detsim::future::poll_once(&mut fut);
+                            detsim::yield_point();
+                            // (the pinned future is dropped at the end of this arm, still suspended)
+                        }
+                        "instr_async_panic" => {
+                            let _ = std::panic::catch_unwind(std::panic::AssertUnwindSafe(|| detsim::future::block_on(&mut fut)));
+                        }
+                        _ => {
+                            let i = detsim::future::block_on(&mut fut);
+                            assert_eq!(i.discard_metrics(), 7);
+                        }
+                    }
+                }
+            }
+        }
         o => drop(o),
     }
     log.log(UK::DropEnd { obj: id });
@@ -303,7 +361,10 @@ fn uow_main(plan: &Value, log: ULog) {
             "reopen" => {
                 if let Some(o) = owner.as_mut() {
                     let slot = ju(op, "slot", 1);
-                    let was_none = if slot == 1 { o.s1.open(OnParentDrop::Discard).is_none() } else { o.s2.open(Sub2::default(), OnParentDrop::Discard).is_none() };
+                    // a refused second open must let go of whatever it was given: a flush guard passed along in
+                    // wait mode is not held by anybody afterwards
+                    let m = if jb(op, "wait", false) { OnParentDrop::Wait(o.flush_guard()) } else { OnParentDrop::Discard };
+                    let was_none = if slot == 1 { o.s1.open(m).is_none() } else { o.s2.open(Sub2::default(), m).is_none() };
                     log.log(UK::ReopenResult { slot, was_none });
                 }
             }
@@ -644,7 +705,7 @@ pub fn gen_uow(rng: &mut Rng, slots: bool) -> Value {
                 let slot = if rng.chance(0.5) { 1 } else { 2 };
                 let already = if slot == 1 { slot1_open } else { slot2_open };
                 if already {
-                    main_ops.push(json!({"op":"reopen","slot":slot}));
+                    main_ops.push(json!({"op":"reopen","slot":slot,"wait":rng.chance(0.5)}));
                 } else {
                     let id = 100 + 2 * next + if slot == 1 { 0 } else { 1 };
                     next += 1;
@@ -705,8 +766,8 @@ pub fn gen_uow(rng: &mut Rng, slots: bool) -> Value {
         if !owner_objs.contains(&id) && rng.chance(0.07) {
             op["forget"] = json!(true);
         }
-        if id == 0 && rng.chance(0.3) {
-            op["via"] = json!("emit");
+        if id == 0 && rng.chance(0.45) {
+            op["via"] = json!(*rng.pick(&["emit", "emit", "emit", "instr_sync", "instr_split", "instr_async_done", "instr_async_cancel", "instr_async_panic"]));
         } else if rng.chance(0.1) {
             op["in_task"] = json!(true);
         } else if op.get("forget").is_none() && rng.chance(0.1) {
@@ -924,7 +985,31 @@ impl EntrySink<RootMetric<Link>> for LinkSink {
     }
 }
 
+/// an entry without any field: its closed form is zero-sized (a marker event: "this happened")
+#[metrics]
+#[derive(Default)]
+pub struct Marker {}
+
+#[derive(Clone)]
+pub struct MarkerSink(Arc<Mutex<Vec<u64>>>, u64);
+impl EntrySink<RootMetric<Marker>> for MarkerSink {
+    fn append(&self, _entry: RootMetric<Marker>) {
+        self.0.lock().unwrap().push(self.1);
+    }
+    fn flush_async(&self) -> FlushWait {
+        FlushWait::ready()
+    }
+}
+
 fn chain_part(sink: &LinkSink, depth: u64, panics: u64, base: u64) {
+    // a field-less marker entry (recorded as 500_000 + base), with a flush guard that outlives the owner
+    {
+        let m = Marker::default().append_on_drop(MarkerSink(sink.0.clone(), 500_000 + base));
+        let g = m.flush_guard();
+        drop(m);
+        detsim::yield_point();
+        drop(g);
+    }
     {
         // entries whose append panics, one after the other on this thread
         for k in 0..panics {
@@ -1020,6 +1105,14 @@ impl Scenario for UowChain {
                 let (depth, base) = (ju(p, "depth", 1), ju(p, "base", 0));
                 max_depth = max_depth.max(depth);
                 panics += ju(p, "panics", 0);
+                let markers = got.iter().filter(|x| **x == 500_000 + base).count();
+                if markers != 1 {
+                    r.violation = Some(Violation::new(
+                        if markers == 0 { "never_appended" } else { "appended_twice" },
+                        format!("a field-less marker entry (zero-sized when closed) was appended {markers} times after its owner and its flush guard were dropped"),
+                    ));
+                    break 'parts;
+                }
                 for i in 0..depth {
                     let n = got.iter().filter(|x| **x == base + i).count();
                     if n != 1 {
